@@ -2,12 +2,18 @@
     [returns fuel t]: the generated function of the type at position [t] returns within [fuel] nested
     calls; it calls the functions of [rand_calls t] unconditionally (slices have at least 3 elements,
     maps at least 40 entries, every union alternative is evaluated), so it returns iff they all do,
-    independently of the random stream. Well-formedness of the returned values (enum constants, union
-    members, populated containers, skipped fields) and variation are checked by reflection on the real
-    functions in the test binary on every run. *)
+    independently of the random stream.
+
+    The values: [gen] (Sem/RandSem.v) is rand<T>() as a function of the random numbers drawn, [wf] is
+    "well-formed" (every enum-typed component equals an exported constant, every union-typed component
+    holds a member, fixed arrays, slices and maps are populated with well-formed elements, skipped fields
+    keep their zero value). [gen] is replayed on the calls to math/rand recorded during every real call
+    the test binary makes and must rebuild the very value the real function returned; [wf] is also
+    evaluated on each real value (Corr/Check_C15.v). Variation is counted in the test binary. *)
 From Coq Require Import List String ZArith Bool Arith.
-From GM Require Import Base.Result Facts.GoFacts Facts.Ana Model.Enums Model.Fields Model.Classify Model.RandData Proofs.C15.
+From GM Require Import Base.Result Facts.GoFacts Facts.Ana Model.Enums Model.Fields Model.Classify Model.RandData Model.SqlTypes Sem.GoJson Sem.GoVal Sem.RandSem Proofs.C15 Proofs.C15v.
 Import ListNotations.
+Local Open Scope string_scope.
 
 (** if the call structure below a type is well-founded (some ranking decreases along every call), its
     function returns *)
@@ -29,7 +35,43 @@ Theorem C15_levels_compute_returns : forall nodes, calls_closed nodes = true ->
   forall k t, In t (positions nodes) -> returns nodes k t = returns_level nodes k t.
 Proof. exact returns_level_spec. Qed.
 
+(** whatever the random numbers drawn, the value a generated function returns is well-formed *)
+Theorem C15_generated_values_are_well_formed : forall pr nodes enums fuel t draws v rest,
+  gen pr nodes enums fuel t draws = Some (v, rest) -> wf pr nodes enums fuel t v = true.
+Proof. exact gen_wf. Qed.
+
+(** what well-formed means at an enum position: the value of an exported constant *)
+Theorem C15_wf_enum_component : forall pr nodes enums f t n id v,
+  find_node t nodes = Some n -> nr_kind n = KdEnum -> nr_at n = GNamed id ->
+  wf pr nodes enums (S f) t v = true ->
+  exists m x, In m (exported_members enums id) /\ em_exported m = true /\ member_value m = Some x /\ value_eqb x v = true.
+Proof. exact wf_enum. Qed.
+
+(** ... and at an union position: a member of the union holding a well-formed value of that member *)
+Theorem C15_wf_union_component : forall pr nodes enums f t n v,
+  find_node t nodes = Some n -> nr_kind n = KdUnion ->
+  wf pr nodes enums (S f) t v = true ->
+  exists m w, v = VUnion (local_name_of pr m) w /\ In m (nr_members n) /\ wf pr nodes enums f (GNamed m) w = true.
+Proof. exact wf_union. Qed.
+
+(** the premise is satisfiable: a struct with an enum, a slice of an union and a skipped field, on a recorded sequence of draws *)
+Theorem C15_generated_value_example :
+  gen ex_prog ex_nodes ex_enums 6 (GNamed "p.S") ex_calls =
+    Some (VObj [("E", VNum "2");
+                ("L", VList [VUnion "p.A" (VObj [("X", VBool true)]); VUnion "p.N" (VNum "7"); VUnion "p.N" (VNum "63")]);
+                ("Skip", VZero)], [])
+  /\ wf ex_prog ex_nodes ex_enums 6 (GNamed "p.S")
+        (VObj [("E", VNum "2");
+               ("L", VList [VUnion "p.A" (VObj [("X", VBool true)]); VUnion "p.N" (VNum "7"); VUnion "p.N" (VNum "63")]);
+               ("Skip", VNum "0")]) = true.
+Proof. exact ex_gen. Qed.
+
+
 Print Assumptions C15_terminates_when_acyclic.
 Print Assumptions C15_recursive_type_never_returns.
 Print Assumptions C15_more_fuel_never_hurts.
 Print Assumptions C15_levels_compute_returns.
+Print Assumptions C15_generated_values_are_well_formed.
+Print Assumptions C15_wf_enum_component.
+Print Assumptions C15_wf_union_component.
+Print Assumptions C15_generated_value_example.
